@@ -212,3 +212,87 @@ def run_leg(binary, scenario, config, threads=NCPU, dfs_check_depth=3, max_secon
         raise MachineryError("explorer cross-check failed in %s: BFS and plain DFS disagree at depth %s: %s" % (scenario["name"], cc["depth"], cc))
     shutil.rmtree(d, ignore_errors=True)
     return res
+
+
+# ------------------------------------------------------------------------------------------------
+# Miri: precise oracle for uninitialised reads / aliasing / out-of-bounds on a small, fully enumerated set of histories
+# ------------------------------------------------------------------------------------------------
+
+MIRI_FIXED = [
+    # churn + growth + reuse + dynamic keys + ecs_iter_destroy! + clone, written out (archetype 2 = Key, Zed, Pad)
+    [{"Create": {"w": 0, "a": 2, "via": "World"}}, {"Create": {"w": 0, "a": 2, "via": "Arch"}}, {"Create": {"w": 0, "a": 2, "via": "World"}}, {"Destroy": {"w": 0, "a": 2, "i": 0, "key": 1, "via": "World"}},
+     {"Create": {"w": 0, "a": 2, "via": "World"}}, {"Destroy": {"w": 0, "a": 2, "i": 1, "key": 2, "via": "Arch"}}, {"IterDestroy": {"w": 0, "scope": 2, "dec": 6}}, {"CreateWithin": {"w": 0, "a": 2, "via": "World"}}],
+    [{"Create": {"w": 0, "a": 2, "via": "World"}}, {"Create": {"w": 0, "a": 2, "via": "World"}}, {"Destroy": {"w": 0, "a": 2, "i": 0, "key": 3, "via": "World"}}, {"CloneWorld": {"w": 0}},
+     {"Create": {"w": 1, "a": 2, "via": "World"}}, {"Create": {"w": 1, "a": 2, "via": "World"}}, {"Destroy": {"w": 0, "a": 2, "i": 0, "key": 0, "via": "World"}}, {"IterDestroy": {"w": 1, "scope": 2, "dec": 2}}],
+]
+
+
+def miri_env():
+    env = env_base()
+    env["MIRIFLAGS"] = "-Zmiri-disable-isolation -Zmiri-ignore-leaks"
+    env["RUSTFLAGS"] = "--cfg gecs_verif"
+    src, tgt = engines_dir()
+    env["CARGO_TARGET_DIR"] = tgt + "-miri"
+    return env, src
+
+
+def miri_replay(scenario, history, features=()):
+    """One history under Miri. Returns (verdict, detail): ok | violation(json) | ub(stderr excerpt) | error."""
+    os.makedirs(os.path.join(WORK, "replay"), exist_ok=True)
+    tag = hashlib.sha1((json.dumps(scenario, sort_keys=True) + json.dumps(history)).encode()).hexdigest()[:12]
+    sp = os.path.join(WORK, "replay", "msc-%s.json" % tag)
+    hp = os.path.join(WORK, "replay", "mh-%s.json" % tag)
+    write_json(sp, scenario)
+    write_json(hp, history)
+    env, src = miri_env()
+    feats = ",".join(("no_poison",) + tuple(features))
+    cmd = ["cargo", "+nightly", "miri", "run", "--offline", "-q", "-p", "hx", "--features", feats, "--", "replay", "--scenario", sp, "--history", hp]
+    if os.path.exists(KNOWN):
+        cmd += ["--known", KNOWN]
+    rc, out, err = run(cmd, timeout=3600, env=env, cwd=src)
+    for p in (sp, hp):
+        try:
+            os.remove(p)
+        except OSError:
+            pass
+    if "Undefined Behavior" in err or "error: unsupported operation" in err:
+        k = err.find("error:")
+        return "ub", err[k:k + 1500]
+    if rc == 0:
+        return "ok", ""
+    if rc == 1 and out.strip().startswith("{"):
+        try:
+            return "violation", json.loads(out)["violations"]
+        except Exception:
+            pass
+    return "error", (err or out)[-1200:]
+
+
+def run_miri_leg(native_binary, scenario, depth, features=(), workers=8):
+    """All histories of `scenario` up to `depth` (enumerated natively by the plain DFS) + the fixed deeper ones, each replayed under Miri."""
+    from concurrent.futures import ThreadPoolExecutor
+    d = os.path.join(WORK, "hx", "miri-%d" % os.getpid())
+    shutil.rmtree(d, ignore_errors=True)
+    os.makedirs(d)
+    sc = dict(scenario)
+    sc["depth"] = depth
+    sp, op, hp = os.path.join(d, "sc.json"), os.path.join(d, "out.json"), os.path.join(d, "hist.json")
+    write_json(sp, sc)
+    cmd = [native_binary, "run", "--scenario", sp, "--out", op, "--mode", "dfs", "--threads", "1", "--dump-histories", hp]
+    if os.path.exists(KNOWN):
+        cmd += ["--known", KNOWN]
+    rc, out, err = run(cmd, timeout=3600)
+    if not os.path.exists(hp):
+        raise MachineryError("could not enumerate the histories for the Miri leg: rc=%s %s" % (rc, (err or "")[-500:]))
+    hists = json.load(open(hp))
+    full = dict(scenario)
+    full["depth"] = 12
+    jobs = [(sc, h) for h in hists] + [(full, h) for h in MIRI_FIXED if scenario.get("max_clones", 0) or not any("CloneWorld" in op for op in h)]
+    # make sure the Miri build exists before fanning out (cargo would otherwise serialise on the build lock anyway)
+    t0 = time.time()
+    first = miri_replay(jobs[0][0], jobs[0][1], features)
+    with ThreadPoolExecutor(max_workers=workers) as ex:
+        rest = list(ex.map(lambda j: miri_replay(j[0], j[1], features), jobs[1:]))
+    results = [first] + rest
+    shutil.rmtree(d, ignore_errors=True)
+    return jobs, results, time.time() - t0
